@@ -26,6 +26,24 @@ def O(name, **methods):
 
 
 VEC_TYPES = ("Vec", "ReportCollection", "VecDeque")
+MAP_TYPES = ("HashMap", "BTreeMap")
+
+
+class MMap:
+    """a map that is mutated in place (keys compared by identity or equality)"""
+
+    def __init__(self, pairs=()):
+        self.pairs = [list(p) for p in pairs]
+
+    def find(self, k):
+        for p in self.pairs:
+            if p[0] is k or p[0] == k:
+                return p
+        return None
+
+    def __repr__(self):
+        return "MMap(%d)" % len(self.pairs)
+
 
 
 class Sink:
@@ -211,6 +229,10 @@ class PassWorld(World):
         if k == "Call" and e["func"]["k"] == "Path":
             p = e["func"]["path"]
             segs_ = p.split("::")
+            if len(segs_) >= 2 and segs_[-2] in MAP_TYPES and segs_[-1] in ("new", "with_capacity", "default") and p not in env:
+                for a in e["args"]:
+                    self.eval(a, env, uses)
+                return MMap()
             if len(segs_) >= 2 and segs_[-2] in VEC_TYPES and segs_[-1] in ("new", "with_capacity", "default") and p not in env:
                 for a in e["args"]:
                     self.eval(a, env, uses)
@@ -227,6 +249,40 @@ class PassWorld(World):
         if k == "MethodCall":
             m = e["method"]
             recv = self.eval(e["recv"], env, uses)
+            if isinstance(recv, MMap):
+                args = [self.eval(a, env, uses) for a in e["args"]]
+                if m == "insert" and len(args) == 2:
+                    p_ = recv.find(args[0])
+                    if p_ is None:
+                        recv.pairs.append([args[0], args[1]])
+                        return NONE
+                    old_ = p_[1]
+                    p_[1] = args[1]
+                    return S("Some", old_)
+                if m in ("get", "get_mut") and len(args) == 1:
+                    p_ = recv.find(args[0])
+                    return S("Some", p_[1]) if p_ else NONE
+                if m == "contains_key" and len(args) == 1:
+                    return recv.find(args[0]) is not None
+                if m == "remove" and len(args) == 1:
+                    p_ = recv.find(args[0])
+                    if p_ is None:
+                        return NONE
+                    recv.pairs.remove(p_)
+                    return S("Some", p_[1])
+                if m == "len" and not args:
+                    return len(recv.pairs)
+                if m == "is_empty" and not args:
+                    return not recv.pairs
+                if m in ("iter", "into_iter") and not args:
+                    return Iter([("T", (a_, b_)) for a_, b_ in recv.pairs])
+                if m == "keys" and not args:
+                    return Iter([a_ for a_, _b in recv.pairs])
+                if m == "values" and not args:
+                    return Iter([b_ for _a, b_ in recv.pairs])
+                if m == "clone" and not args:
+                    return MMap(recv.pairs)
+                raise Unsupported("map method " + m)
             if isinstance(recv, Sink):
                 args = [self.eval(a, env, uses) for a in e["args"]]
                 if m in ("iter", "into_iter", "drain") and (not args or m == "drain"):
